@@ -126,10 +126,32 @@ def r_doc_reset(ctx, repo, entries=None):
                     work_nodes.append(n)
         if not work_nodes:
             raise AnalysisError('%s: none of the work calls %s found' % (entry.qualname, work))
+        def helper_resets(name):
+            """methods of the family whose every normal path assigns self.<name> an initial-like value."""
+            out = set()
+            for c in _family(repo, K):
+                for h in c.methods.values():
+                    if h is entry or h.name == '__init__':
+                        continue
+                    hs = h.params[0] if h.params else 'self'
+                    hc = CFG(h.node)
+                    rn = [x for x in hc.nodes if x.kind == 'stmt' and isinstance(x.ast, ast.Assign) and _initial_like(x.ast.value)
+                          and any(A.is_attr(t, hs, name) for t in x.ast.targets)]
+                    if rn:
+                        r0 = hc.reach([hc.entry], blocked=rn, follow_exc=False)
+                        if not any(x in r0 for x in hc.normal_exits()):
+                            out.add(h.name)
+            return out
         for name in sorted(mutated):
             total += 1
             resets = []
+            helpers = helper_resets(name)
             for n in cfg.nodes:
+                if n.ast is not None and helpers and n.kind in ('stmt',):
+                    from .cfg import own_exprs as _oe
+                    if any(isinstance(x, ast.Call) and isinstance(x.func, ast.Attribute) and x.func.attr in helpers
+                           and isinstance(x.func.value, ast.Name) and x.func.value.id == sn for x in _oe(n)):
+                        resets.append(n)
                 st = n.ast
                 if n.kind == 'stmt' and isinstance(st, ast.Assign) and _initial_like(st.value) \
                         and any(A.is_attr(t, sn, name) for t in st.targets):
